@@ -52,6 +52,9 @@ class ExecMonitor:
         en = enters[0]
         if en["ds"] != call["expect_ds"]:
             ctx.violation("wrong-executor", f"{where}: [{e.how}] ran on {en['ds']}, expected {call['expect_ds']} (override={call['override']})", wit)
+        target = call.get("expect_target") or e.ds
+        if en["ds"] == call["expect_ds"] and en.get("self") is not target:
+            ctx.violation("executor-ran-on-a-copy-of-the-dataset", f"{where}: [{e.how}] the executor was invoked on an object that is not the {'override' if call['override'] else 'root dataset'} object itself (a copy of it)", wit)
         if en["building"]:
             ctx.violation("executor-entered-while-building", f"{where}: executor entered inside a derive call", wit)
         exp = astx.dump_fields(refimpl.remove_empty(e.s.query_ast))
